@@ -121,7 +121,7 @@ def run_ensemble(rng, obs):
     probe.hooks.append(lambda seq, x: seen.add(tuple(x)))
     box = K.gen_box(rng, dim, None, shape='finite')
     if cost_spec[0] in ('plateau', 'step') and rng.random() < 0.7:      # several members reach exactly the same (often exactly zero) best energy
-        box = {'lo': [c - 5.0 for c in cost_spec[1]], 'hi': [c + 5.0 for c in cost_spec[1]], 'shape': 'finite'}
+        box = {'lo': [round(c - 5.0, 2) for c in cost_spec[1]], 'hi': [round(c + 5.0, 2) for c in cost_spec[1]], 'shape': 'finite'}
     inner_name = rng.choice(['default', 'nm', 'powell', 'de', 'de2'])
     inner = {'nm': NelderMeadSimplexSolver, 'powell': PowellDirectionalSolver, 'de': DifferentialEvolutionSolver, 'de2': DifferentialEvolutionSolver2}.get(inner_name)
     api = rng.choice(['wrapper', 'class_solve', 'class_step'])
